@@ -249,9 +249,12 @@ def structure_family(rp, only=None):
     for kind, progs in convkern.STRUCT_PROGRAMS.items():
         if only and kind not in only:
             continue
-        for i, (src, want) in enumerate(progs):
+        for i, prog in enumerate(progs):
+            src, want = prog[0], prog[1]
             n += 1
             st, out = rp.transpile(src)
+            if st == "OK" and len(prog) > 2:
+                out = out + "\n" + prog[2] + "\n"      # Python caller of the generated code
             if st != "OK":
                 bad.append({"role": f"{kind}#{i}", "src": src, "why": f"{st}: {out[:160]}"})
                 continue
@@ -264,7 +267,7 @@ def structure_family(rp, only=None):
 
 # node kinds whose replay programs exercise an arm that only dispatches / is reached through other kinds
 RELATED = {"Handle": ["HandleId", "Raise"], "ExpressionType": ["Match", "Handle"], "Underscore": ["Match"], "Break": ["For", "While"], "Continue": ["For", "While"],
-           "VariableDef": ["Block", "Reassign"], "FunDef": ["FunctionCall", "Block"], "FunArg": ["FunctionCall"],
+           "VariableDef": ["Block", "Reassign"], "FunDef": ["FunctionCall", "Block", "FunArg"], "FunArg": ["FunctionCall"],
            "Class": ["PropertyCall"], "Parent": ["Raise"], "TypeDef": [], "TypeAlias": [], "Range": [], "Slice": [],
            "DocStr": [], "With": [], "IsNA": [], "Pass": ["Pass"]}
 
